@@ -67,8 +67,13 @@ class Recorder:
     def set_max(self, name: str, v: int) -> None:
         self.counters[name] = max(self.counters.get(name, 0), v)
 
-    def violation(self, prop: str, key: str, msg: str, case) -> None:
-        """prop: property the oracle belongs to; key: mechanism-level classification."""
+    def violation(self, prop: str, key: str, msg: str, case, exc: BaseException | None = None) -> None:
+        """prop: property the oracle belongs to; key: mechanism-level classification.
+        exc: the exception that led to this verdict, if any - one raised by the harness' own code
+        turns the verdict into 'inconclusive'."""
+        if exc is not None and env.harness_fault(exc):
+            self.inconc(f"harness exception while judging {prop}:{key}: {type(exc).__name__}: {exc}")
+            return
         full = f"{prop}:{key}"
         self.viol_counts[full] = self.viol_counts.get(full, 0) + 1
         n = self._viol_per_key.get(full, 0)
